@@ -23,11 +23,11 @@ build_lib() { # dir compiler extra-flags
 (
   flock 9
   build_lib "$OUT/build" g++ ""
-  make -s -C "$VERIF/harness" REPO="$REPO" LIBDIR="$OUT/build/src" OUT="$OUT/bin" -j16 || exit 2
+  make -s -C "$VERIF/harness" REPO="$REPO" LIBDIR="$OUT/build/src" OUT="$OUT/bin" -j16 > "$OUT/harness.build.log" 2>&1 || { tail -40 "$OUT/harness.build.log"; exit 2; }
   if [ "$SAN" = 1 ]; then
     build_lib "$OUT/build-san" clang++ "-fsanitize=address,undefined -fno-omit-frame-pointer -fno-sanitize-recover=undefined"
     make -s -C "$VERIF/harness" REPO="$REPO" LIBDIR="$OUT/build-san/src" OUT="$OUT/bin-san" CXX=clang++ \
-      SANFLAGS="-fsanitize=address,undefined -fno-omit-frame-pointer -fno-sanitize-recover=undefined" -j16 || exit 2
+      SANFLAGS="-fsanitize=address,undefined -fno-omit-frame-pointer -fno-sanitize-recover=undefined" -j16 > "$OUT/harness-san.build.log" 2>&1 || { tail -40 "$OUT/harness-san.build.log"; exit 2; }
   fi
 ) 9>"$OUT/.build.lock"
 
